@@ -110,27 +110,30 @@ def model_runs(ctx):
     inv = tl.C13_INV
 
     def stmt(name, consts, expect_unseen, workers=1, sym=True):
+        # the witness registers are per TLC worker: only single-worker runs carry them
         def go():
-            cfg = tl.mc_cfg(ctx, name, consts, inv, symmetry=sym, witness=True)
+            cfg = tl.mc_cfg(ctx, name, consts, inv, symmetry=sym, witness=workers == 1)
             res = tlc.run("Tasks", cfg, ctx.scratch, workers=workers, timeout=3000)
-            return ("stmt", name, res, expect_unseen)
+            return ("stmt" if workers == 1 else "big", name, res, expect_unseen)
         return go
     # witnesses: 1 killed, 2 cparked, 3 two claimants, 6 head-of-line (needs an exit that suspends: not here), 8 refused
     runs.append(stmt("c13_3x2x2", {}, {4, 5, 6, 7, 8, 9, 10}))
     runs.append(stmt("c13_foreign_deco", {"Task": "{t1, t2}", "Foreign": "{f1}", "Name": "{n1}", "Kinds": '{"trig"}',
-                                          "Ctx": ctx.pick("{c1}", "{c1, c2}"), "MaxOps": ctx.pick("1", "2"),
+                                          "Ctx": "{c1}", "MaxOps": "1",
                                           "Ops": '{"unique", "sleep"}', "Decos": "<- DecosAll"}, {4, 5, 6, 7, 9, 10}))
     if not ctx.quick:
-        runs.append(stmt("c13_3x2x2_ops3", {"MaxOps": "3"}, {4, 5, 6, 7, 8, 9, 10}))
+        runs.append(stmt("c13_foreign_deco_2ctx_ops2", {"Task": "{t1, t2}", "Foreign": "{f1}", "Name": "{n1}", "Kinds": '{"trig", "svc"}',
+                                                        "MaxOps": "2", "Ops": '{"unique", "sleep"}', "Decos": "<- DecosAll"}, None, workers=4))
+        runs.append(stmt("c13_3x2x2_ops3", {"MaxOps": "3"}, None, workers=6))
         runs.append(stmt("c13_cancel", {"Name": "{n1}", "Ops": '{"unique", "sleep", "raise", "cancel"}', "MaxEnv": "1"},
-                         {4, 5, 6, 7, 8, 10}))
+                         None, workers=4))
 
         def sim():
             cfg = tl.mc_cfg(ctx, "c13_sim", {"Task": "{t1, t2, t3, t4, t5}", "Foreign": "{f1}", "Name": "{n1, n2, n3}",
                                              "MaxOps": "4", "MaxEnv": "2", "Kinds": '{"trig", "svc"}', "Decos": "<- DecosAll",
                                              "Ops": '{"unique", "sleep", "raise", "cancel"}'}, inv, symmetry=False)
             res = tlc.run("Tasks", cfg, ctx.scratch, workers=4, timeout=3000,
-                          extra=["-simulate", "num=60000", "-depth", "80", "-seed", str(ctx.seed + 1)])
+                          extra=["-simulate", "num=3000", "-depth", "60", "-seed", str(ctx.seed + 1)])
             return ("sim", "c13_sim_5x3", res, None)
         runs.append(sim)
     for flag in PROP_FLAGS:
@@ -150,6 +153,14 @@ def absorb_model(ctx, outs):
             ctx.report({"clause": "model:" + str(res.violated), "config": name},
                        "Tasks.tla (flags = {}) violates %s in %s" % (res.violated, name), {"cex": res.cex})
             continue
+        if kind == "sim":
+            import re
+            m = re.search(r"(\d+) states checked, (\d+) traces generated", res.out)
+            ctx.cov["simulation"] = {"run": name, "states_checked": int(m.group(1)) if m else 0,
+                                     "behaviours": int(m.group(2)) if m else 0}
+            if m:
+                ctx.cov["states"] += int(m.group(1))
+                ctx.cov["transitions"] += int(m.group(1))
         if kind == "stmt":
             bad = set(tl.unseen(res)) - expect_unseen
             if bad:
